@@ -1130,6 +1130,32 @@ fn rows_of<const N: usize>(m: &M<N>) -> Vec<Row> {
 fn class_pairs(rows: &[Row], s: usize, d: usize) -> Vec<(JavaString, JavaString)> {
 	rows.iter().filter_map(|r| match (&r.names[s], &r.names[d]) { (Some(a), Some(b)) => Some((a.clone(), b.clone())), _ => None }).collect()
 }
+/// The class renaming the REQUEST's rows demand (never the implementation's `map_class`): the last row naming `c` in the source
+/// namespace and having a name in the target namespace wins, every other name is unchanged.
+fn spec_class(pairs: &[(JavaString, JavaString)], c: &JavaStr) -> JavaString {
+	pairs.iter().rev().find(|p| *p.0 == *c).map(|p| p.1.clone()).unwrap_or_else(|| c.to_owned())
+}
+/// Descriptor rewriting with the harness's own JVMS 4.3 parser and printer (never `map_desc`); `None` = not of the grammar.
+fn spec_desc(pairs: &[(JavaString, JavaString)], d: &JavaStr) -> Option<JavaString> {
+	let tree = parse_desc(&jstr_cps(d))?;
+	Some(cps_jstring(&print_desc(&map_d(&tree, &|nm| jstr_cps(&spec_class(pairs, &cps_jstring(nm)))))))
+}
+/// every member descriptor of the set is a descriptor of the grammar (own parser): the request-side domain of the member oracles
+/// (on it `remapper_b` has to succeed; a set with a malformed member descriptor is left to the `map-*` ops)
+fn all_descs_parse(rows: &[Row]) -> bool {
+	rows.iter().all(|r| r.fields.iter().chain(&r.methods).all(|(d, _)| parse_desc(&jstr_cps(d)).is_some()))
+}
+/// What class `c` (its name in namespace `s`) declares for `key` according to the request's rows, towards namespace `t`: the last
+/// row named `c` in `s` with a name in `t` is the class; in it the last member with names in `s` and `t` whose name in `s` and
+/// descriptor (stored in the first namespace, rewritten to `s` by `spec_desc`) equal `key` wins. Only on `all_descs_parse` sets.
+fn spec_declares(rows: &[Row], kind: &str, s: usize, t: usize, c: &JavaStr, key: &Key) -> Option<Key> {
+	let row = rows.iter().rev().find(|r| r.names[s].as_deref() == Some(c) && r.names[t].is_some())?;
+	let (p0s, p0t) = (class_pairs(rows, 0, s), class_pairs(rows, 0, t));
+	(if kind == "f" { &row.fields } else { &row.methods }).iter().rev().find_map(|(desc, names)| match (&names[s], &names[t]) {
+		(Some(ns), Some(nt)) if *ns == key.0 && spec_desc(&p0s, desc).as_ref() == Some(&key.1) => Some((nt.clone(), spec_desc(&p0t, desc)?)),
+		_ => None,
+	})
+}
 fn inj_on<K: PartialEq>(pairs: &[(K, K)], img: &K, c: &K) -> bool { pairs.iter().all(|p| p.1 != *img || p.0 == *c) }
 fn valid_name(n: &JavaStr) -> bool { !n.is_empty() && !n.contains(';') }
 
@@ -1391,11 +1417,12 @@ fn exec(op: &str, args: &[Sexp]) -> Ans {
 			}
 			("oracle-desc-shape", [src, dst, d]) => {
 				let d = tr!(d.as_jstring());
+				let (s_i, d_i) = (tr!(src.as_nat()), tr!(dst.as_nat()));
 				let (Ok(src), Ok(dst)) = (ns!(N, src), ns!(N, dst)) else { return Ans::out_of_domain() };
-				let Ok(a) = m.remapper_a(src, dst) else { return Ans::out_of_domain() };
-				let Some(tree) = parse_desc(&jstr_cps(&d)) else { return Ans::out_of_domain() };
-				let expect = print_desc(&map_d(&tree, &|nm| a.map_class(ocs(&cps_jstring(nm))).map(|x| jstr_cps(x.as_inner())).unwrap_or_default()));
-				match q_desc(&a, "f", &d) { Ok(x) if jstr_cps(&x) == expect => Ans::pass(), Ok(_) => Ans::fail("differs"), Err(_) => Ans::fail("rejected") }
+				// expected value from the request: own parser / printer, names renamed by the request's rows
+				let Some(expect) = spec_desc(&class_pairs(&rows_of(&m), s_i, d_i), &d) else { return Ans::out_of_domain() };
+				let Ok(a) = m.remapper_a(src, dst) else { return Ans::fail("construct_err") };
+				match q_desc(&a, "f", &d) { Ok(x) if x == expect => Ans::pass(), Ok(_) => Ans::fail("differs"), Err(_) => Ans::fail("rejected") }
 			}
 			("oracle-desc-rejects", [src, dst, d]) => {
 				let d = tr!(d.as_jstring());
@@ -1408,14 +1435,17 @@ fn exec(op: &str, args: &[Sexp]) -> Ans {
 				if kind != "f" && kind != "m" { return Ans::BadOp("kind".into()); }
 				let (prov, plain) = tr!(supers_from(sup));
 				let (owner, nm, d) = (tr!(owner.as_jstring()), tr!(nm.as_jstring()), tr!(d.as_jstring()));
+				let (s_i, d_i) = (tr!(src.as_nat()), tr!(dst.as_nat()));
 				let (Ok(src), Ok(dst)) = (ns!(N, src), ns!(N, dst)) else { return Ans::out_of_domain() };
-				let Ok(b) = m.remapper_b(src, dst, &prov) else { return Ans::out_of_domain() };
 				if op == "oracle-fallback" {
+					let Ok(b) = m.remapper_b(src, dst, &prov) else { return Ans::out_of_domain() };
 					let Ok(f) = q_fail(&b, kind, &owner, &nm, &d) else { return Ans::fail("err") };
 					let spec: Option<Key> = match f { Some(v) => Some(v), None => q_desc(&b, kind, &d).ok().map(|x| (nm.clone(), x)) };
 					return if q_map(&b, kind, &owner, &nm, &d).ok() == spec { Ans::pass() } else { Ans::fail("differs") };
 				}
-				let Ok(b0) = m.remapper_b(src, dst, NoSuperClassProvider::new()) else { return Ans::out_of_domain() };
+				// domain from the request: member descriptors of the grammar (then the construction has to succeed)
+				let rows = rows_of(&m);
+				if !all_descs_parse(&rows) { return Ans::out_of_domain(); }
 				// member_resolution / member_resolution_nearest (one statement since c873813; `-nearest-full` is an alias kept
 				// so that the request line recorded for the fixed finding C06-unmapped-owner-hides-supers still replays):
 				// the answer is the first declaration along the pre-order of the provider's graph from the owner, whether
@@ -1430,8 +1460,10 @@ fn exec(op: &str, args: &[Sexp]) -> Ans {
 				}
 				let mut order = Vec::new();
 				if dfs(&plain, plain.len() + 1, &owner, &mut order).is_none() { return Ans::out_of_domain(); }
-				// what a class declares itself: the remapper without a provider
-				let spec = order.iter().find_map(|c| q_fail(&b0, kind, c, &nm, &d).ok().flatten());
+				// what a class declares itself: read off the request's rows (`spec_declares`), not off the implementation's table
+				let key = (nm.clone(), d.clone());
+				let spec = order.iter().find_map(|c| spec_declares(&rows, kind, s_i, d_i, c, &key));
+				let Ok(b) = m.remapper_b(src, dst, &prov) else { return Ans::fail("construct_err") };
 				match q_fail(&b, kind, &owner, &nm, &d) { Ok(x) if x == spec => Ans::pass(), Ok(_) => Ans::fail("differs"), Err(_) => Ans::fail("err") }
 			}
 			("oracle-roundtrip-class", [x, y, c]) => {
@@ -1439,9 +1471,10 @@ fn exec(op: &str, args: &[Sexp]) -> Ans {
 				let (x_i, y_i) = (tr!(x.as_nat()), tr!(y.as_nat()));
 				let (Ok(x), Ok(y)) = (ns!(N, x), ns!(N, y)) else { return Ans::out_of_domain() };
 				let (Ok(f), Ok(b)) = (m.remapper_a(x, y), m.remapper_a(y, x)) else { return Ans::out_of_domain() };
+				// domain from the request: the image the rows demand is the image of nothing else
 				let pairs = class_pairs(&rows_of(&m), x_i, y_i);
+				if !inj_on(&pairs, &spec_class(&pairs, &c), &c) { return Ans::out_of_domain(); }
 				let Ok(img) = f.map_class(ocs(&c)) else { return Ans::fail("err") };
-				if !inj_on(&pairs, &img.as_inner().to_owned(), &c) { return Ans::out_of_domain(); }
 				match b.map_class(&img) { Ok(back) if *back.as_inner() == *c => Ans::pass(), _ => Ans::fail("differs") }
 			}
 			("oracle-roundtrip-desc", [x, y, d]) => {
@@ -1453,8 +1486,8 @@ fn exec(op: &str, args: &[Sexp]) -> Ans {
 				let pairs = class_pairs(&rows_of(&m), x_i, y_i);
 				for nm in names_d(&tree) {
 					let c = cps_jstring(&nm);
-					let Ok(img) = f.map_class(ocs(&c)) else { return Ans::fail("err") };
-					if !inj_on(&pairs, &img.as_inner().to_owned(), &c) || !valid_name(img.as_inner()) { return Ans::out_of_domain(); }
+					let img = spec_class(&pairs, &c);
+					if !inj_on(&pairs, &img, &c) || !valid_name(&img) { return Ans::out_of_domain(); }
 				}
 				let Ok(d1) = q_desc(&f, "f", &d) else { return Ans::fail("fwd_rejected") };
 				match q_desc(&b, "f", &d1) { Ok(back) if back == d => Ans::pass(), _ => Ans::fail("differs") }
@@ -1465,25 +1498,30 @@ fn exec(op: &str, args: &[Sexp]) -> Ans {
 				let (owner, nm, d) = (tr!(owner.as_jstring()), tr!(nm.as_jstring()), tr!(d.as_jstring()));
 				let (x_i, y_i) = (tr!(x.as_nat()), tr!(y.as_nat()));
 				let (Ok(x), Ok(y)) = (ns!(N, x), ns!(N, y)) else { return Ans::out_of_domain() };
-				let nosup = NoSuperClassProvider::new();
-				let (Ok(rf), Ok(rb)) = (m.remapper_b(x, y, nosup), m.remapper_b(y, x, nosup)) else { return Ans::out_of_domain() };
-				let zero = tr!(Namespace::<N>::new(0));
-				let (Ok(a0x), Ok(a0y)) = (m.remapper_a(zero, x), m.remapper_a(zero, y)) else { return Ans::out_of_domain() };
-				let Ok(Some(cls_name)) = rf.map_class_fail(ocs(&owner)) else { return Ans::out_of_domain() };
+				// the whole domain is read off the request's rows: grammatical member descriptors, the owner's row, the image of the
+				// member in it (`spec_declares`), injectivity of the class rows at the owner and of the row's members at the member
 				let rows = rows_of(&m);
+				if !all_descs_parse(&rows) { return Ans::out_of_domain(); }
 				let Some(row) = rows.iter().rev().find(|r| r.names[x_i].as_ref() == Some(&owner) && r.names[y_i].is_some()) else { return Ans::out_of_domain() };
-				let Ok(Some(key2)) = q_fail(&rf, kind, &owner, &nm, &d) else { return Ans::out_of_domain() };
+				let Some(cls_name) = row.names[y_i].clone() else { return Ans::out_of_domain() };
+				let Some(key2) = spec_declares(&rows, kind, x_i, y_i, &owner, &(nm.clone(), d.clone())) else { return Ans::out_of_domain() };
+				let (p0x, p0y) = (class_pairs(&rows, 0, x_i), class_pairs(&rows, 0, y_i));
 				let mut mrows: Vec<(Key, Key)> = Vec::new();
 				for (desc, names) in if kind == "f" { &row.fields } else { &row.methods } {
 					if let (Some(nx), Some(ny)) = (&names[x_i], &names[y_i]) {
-						let (Ok(dx), Ok(dy)) = (q_desc(&a0x, kind, desc), q_desc(&a0y, kind, desc)) else { return Ans::out_of_domain() };
+						let (Some(dx), Some(dy)) = (spec_desc(&p0x, desc), spec_desc(&p0y, desc)) else { return Ans::out_of_domain() };
 						mrows.push(((nx.clone(), dx), (ny.clone(), dy)));
 					}
 				}
 				let pairs = class_pairs(&rows, x_i, y_i);
-				if !inj_on(&pairs, &cls_name.as_inner().to_owned(), &owner) { return Ans::out_of_domain(); }
+				if !inj_on(&pairs, &cls_name, &owner) { return Ans::out_of_domain(); }
 				if !inj_on(&mrows, &key2, &(nm.clone(), d.clone())) { return Ans::out_of_domain(); }
-				match q_fail(&rb, kind, cls_name.as_inner(), &key2.0, &key2.1) { Ok(Some(k)) if k == (nm, d) => Ans::pass(), _ => Ans::fail("differs") }
+				let nosup = NoSuperClassProvider::new();
+				let (Ok(rf), Ok(rb)) = (m.remapper_b(x, y, nosup), m.remapper_b(y, x, nosup)) else { return Ans::fail("construct_err") };
+				// there with the implementation, and back
+				let Ok(Some(there)) = q_fail(&rf, kind, &owner, &nm, &d) else { return Ans::fail("there") };
+				let Ok(Some(there_cls)) = rf.map_class_fail(ocs(&owner)) else { return Ans::fail("there_class") };
+				match q_fail(&rb, kind, there_cls.as_inner(), &there.0, &there.1) { Ok(Some(k)) if k == (nm, d) => Ans::pass(), _ => Ans::fail("differs") }
 			}
 			("prov-remap" | "oracle-prov-remap-edges", [which, src, dst, provs]) => {
 				let (provs, plain) = tr!(provs_from(provs));
@@ -1509,12 +1547,21 @@ fn exec(op: &str, args: &[Sexp]) -> Ans {
 				let (owner, nm, d) = (tr!(owner.as_jstring()), tr!(nm.as_jstring()), tr!(d.as_jstring()));
 				let oracle = op != "map-there-back";
 				let bad = || if oracle { Ans::out_of_domain() } else { Ans::err() };
+				let (x_i, y_i) = (tr!(x.as_nat()), tr!(y.as_nat()));
 				let (Ok(x), Ok(y)) = (ns!(N, x), ns!(N, y)) else { return bad() };
+				// the oracle's domain is decided on the request: grammatical member descriptors (then both constructions have to
+				// succeed), and below the class renaming / the declarations the request's rows demand (`spec_class`, `spec_declares`)
+				let mrows = rows_of(&m);
+				if oracle && !all_descs_parse(&mrows) { return Ans::out_of_domain(); }
+				let bad = || if oracle { Ans::fail("construct_err") } else { Ans::err() };
 				// X -> Y over the providers of the request
 				let Ok(rf) = m.remapper_b(x, y, &provs) else { return bad() };
 				if m.remapper_b(y, x, NoSuperClassProvider::new()).is_err() { return bad(); }
 				let phi = |c: &JavaStr| rf.map_class(ocs(c)).map(|x| x.into_inner()).unwrap_or_default();
-				if !guard_acyclic(&plain, &phi) { return if oracle { Ans::out_of_domain() } else { Ans::ok_tag("cyclic") }; }
+				let pairs_xy = class_pairs(&mrows, x_i, y_i);
+				let sphi = |c: &JavaStr| spec_class(&pairs_xy, c);
+				if oracle { if !guard_acyclic(&plain, &sphi) { return Ans::out_of_domain(); } }
+				else if !guard_acyclic(&plain, &phi) { return Ans::ok_tag("cyclic"); }
 				// the pipeline of `src/specialized_methods` / `src/sus.rs`: carry the providers over, build the way back on them
 				let back_of = |key2: &Key| -> Result<Option<Key>> {
 					let provs2 = JarSuperProv::remap(&rf, &provs)?;
@@ -1527,18 +1574,18 @@ fn exec(op: &str, args: &[Sexp]) -> Ans {
 					let Ok(back) = back_of(&key2) else { return Ans::err() };
 					return Ans::Ok(Sexp::list(vec![Sexp::list(vec![key_sexp(&key2)]), Sexp::list(vec![Sexp::opt(back.as_ref(), key_sexp)])]));
 				}
-				// domain of `roundtrip_inherited`, with what a class declares read off remappers without a provider
-				let (Ok(rf0), Ok(rb0)) = (m.remapper_b(x, y, NoSuperClassProvider::new()), m.remapper_b(y, x, NoSuperClassProvider::new())) else { return Ans::out_of_domain() };
+				// domain of `roundtrip_inherited`, with what a class declares read off the request's rows
 				let mut nodes: Vec<JavaString> = vec![owner.clone()];
 				for p in &plain { for (k, ss) in p { nodes.push(k.clone()); nodes.extend(ss.iter().cloned()); } }
-				if nodes.iter().any(|a| nodes.iter().any(|b| phi(a) == phi(b) && a != b)) { return Ans::out_of_domain(); }
+				if nodes.iter().any(|a| nodes.iter().any(|b| sphi(a) == sphi(b) && a != b)) { return Ans::out_of_domain(); }
 				let rows: Vec<(JavaString, Vec<JavaString>)> = plain.iter().flatten().cloned().collect();
 				let mut order = Vec::new();
 				if pre_order(&rows, rows.len() + 1, &owner, &mut order).is_none() { return Ans::out_of_domain(); }
-				let decl_f = |c: &JavaStr| q_fail(&rf0, kind, c, &nm, &d).ok().flatten();
+				let key = (nm.clone(), d.clone());
+				let decl_f = |c: &JavaStr| spec_declares(&mrows, kind, x_i, y_i, c, &key);
 				let Some(key2) = order.iter().find_map(|c| decl_f(c)) else { return Ans::out_of_domain() };
 				for c in &order {
-					let back_decl = q_fail(&rb0, kind, &phi(c), &key2.0, &key2.1).ok().flatten();
+					let back_decl = spec_declares(&mrows, kind, y_i, x_i, &sphi(c), &key2);
 					match decl_f(c) {
 						None => if back_decl.is_some() { return Ans::out_of_domain(); },
 						Some(v) => if v == key2 && back_decl != Some((nm.clone(), d.clone())) { return Ans::out_of_domain(); },
